@@ -146,10 +146,29 @@ class CFG:
         return self.oracle.raises(exprs, self.func)
 
     def _add_exc_edges(self, nid, types, ctx):
+        self._implicit_exc(nid, ctx)
         if not types:
             return
         for t in self._raise_targets(frozenset(types), ctx.frames):
             self._edge(nid, "exc", t)
+
+    def _implicit_exc(self, nid, ctx):
+        """a statement that calls something inside a try body may raise anything: make the handlers
+        of the enclosing try statements reachable (up to the first catch-all).  Implicit exceptions
+        are modelled no further than that: they never reach raise_exit."""
+        node = self.nodes[nid]
+        if not any(isinstance(x, ast.Call) for e in node.exprs for x in ast.walk(e)):
+            return
+        for fr in reversed(ctx.frames):
+            if isinstance(fr, _TryFrame):
+                stop = False
+                for hnames, hentry in fr.handlers:
+                    self._edge(nid, "exc", hentry)
+                    if hnames is None or "Exception" in hnames or "BaseException" in hnames:
+                        stop = True
+                        break
+                if stop:
+                    return
 
     def _match(self, t, hnames):
         """does a handler with these names catch exception type t: 'yes' / 'maybe' / 'no'."""
